@@ -26,6 +26,8 @@ func init() {
 	reg("C04", "C04.R8", "E2+E8", "no capacity unit of the low-memory pool is lost: admission / undo / one Dec per back (same rule as C05.R3)", 1, ruleLowMemAdmission)
 	reg("C04", "C04.R9", "E2+E8", "no capacity unit of the standard pool is lost (same rule as C05.R4)", 1, ruleStdPoolBalance)
 	reg("C04", "C04.R11", "E2+E6", "blocked list: every stream's recorded position is its position (append records the length, a moved stream gets its new index)", 2, ruleBlockedIndex)
+	reg("C04", "C04.R12", "E2+E3", "every sealed batch takes its commit turn and wakes the next one (same rule as C01.R5)", 1, ruleSequencedRegion)
+	reg("C04", "C04.R13", "E3", "the locks of the pipeline core are taken in one order: no pair of lock classes is nested both ways", 1, ruleLockOrder)
 	reg("C04", "C04.R10", "E2", "no event leaks out of In without being streamed or given back (same rule as C05.R2)", 1, ruleGetStreamOrBack)
 }
 
@@ -1330,4 +1332,136 @@ func (c *Ctx) guardedByStopFlag(in ssa.Instruction, typ, field string) bool {
 		}
 	}
 	return false
+}
+
+// ruleLockOrder: the mutexes of the pipeline core (stream, streamer, batcher, pools) are taken in one
+// global order. For every place where a lock of class B (type.field) is taken — directly or inside a
+// callee, followed through static calls — while a lock of class A is held on some path, the pair
+// (A, B) is recorded; two pairs (A, B) and (B, A) mean two goroutines can each hold one and wait for
+// the other for ever. Classes, not instances: taking the same class twice is not judged.
+func ruleLockOrder(c *Ctx, r *Rule) {
+	classOf := func(ref lockRef) string {
+		if ref.root == nil {
+			return ""
+		}
+		n := namedOf(deref(ref.root.Type()))
+		if n == nil || n.Obj().Pkg() == nil || n.Obj().Pkg().Path() != pipelinePkg {
+			return ""
+		}
+		p := ref.path
+		if strings.HasSuffix(p, ".L") { // a cond's lock is named through the cond
+			if lp, ok := c.condLock(pipelinePkg, n.Obj().Name(), strings.TrimSuffix(p, ".L")[1:]); ok {
+				p = lp
+			}
+		}
+		return n.Obj().Name() + p
+	}
+	// classes a function may acquire (itself or through static callees in the package)
+	acqMemo := map[*ssa.Function]map[string]bool{}
+	var acquires func(fn *ssa.Function, d int) map[string]bool
+	acquires = func(fn *ssa.Function, d int) map[string]bool {
+		if m, ok := acqMemo[fn]; ok {
+			return m
+		}
+		m := map[string]bool{}
+		acqMemo[fn] = m
+		if fn == nil || fn.Blocks == nil || d > 4 {
+			return m
+		}
+		for _, ci := range callsIn(fn) {
+			if _, isGo := ci.(*ssa.Go); isGo {
+				continue
+			}
+			if op, ref := syncLockOp(ci); op == opLock {
+				if cl := classOf(ref); cl != "" {
+					m[cl] = true
+				}
+				continue
+			}
+			if g := ci.Common().StaticCallee(); g != nil && c.inModule(g) && c.pkgOf(g) == "pipeline" {
+				for k := range acquires(g, d+1) {
+					m[k] = true
+				}
+			}
+		}
+		return m
+	}
+	type site struct {
+		pos token.Pos
+		fn  string
+	}
+	edges := map[string]map[string]site{}
+	nSites := 0
+	for _, fn := range c.ModFuncs {
+		if c.pkgOf(fn) != "pipeline" || fn.Blocks == nil {
+			continue
+		}
+		flow := c.lockFlow(fn, lockset{}, false) // held on SOME path
+		for _, ci := range callsIn(fn) {
+			if _, isGo := ci.(*ssa.Go); isGo {
+				continue
+			}
+			newly := map[string]bool{}
+			if op, ref := syncLockOp(ci); op == opLock {
+				if cl := classOf(ref); cl != "" {
+					newly[cl] = true
+				}
+			} else if op == opNone {
+				if g := ci.Common().StaticCallee(); g != nil && c.inModule(g) && c.pkgOf(g) == "pipeline" {
+					for k := range acquires(g, 0) {
+						newly[k] = true
+					}
+				}
+			}
+			if len(newly) == 0 {
+				continue
+			}
+			for _, h := range flow.at(ci) {
+				hc := classOf(h)
+				if hc == "" {
+					continue
+				}
+				for a := range newly {
+					if a == hc {
+						continue
+					}
+					nSites++
+					if edges[hc] == nil {
+						edges[hc] = map[string]site{}
+					}
+					if _, had := edges[hc][a]; !had {
+						edges[hc][a] = site{ci.Pos(), c.fnName(fn)}
+					}
+				}
+			}
+		}
+	}
+	var as []string
+	for a := range edges {
+		as = append(as, a)
+	}
+	sort.Strings(as)
+	var order []string
+	for _, a := range as {
+		var bs []string
+		for b := range edges[a] {
+			bs = append(bs, b)
+		}
+		sort.Strings(bs)
+		for _, b := range bs {
+			order = append(order, a+" -> "+b)
+			r.Inst(1)
+			back, inverted := edges[b][a]
+			s1 := edges[a][b]
+			msg := fmt.Sprintf("%s is taken while %s is held (in %s); the opposite order occurs nowhere", b, a, s1.fn)
+			if inverted {
+				msg = fmt.Sprintf("%s is taken while %s is held in %s, and %s is taken while %s is held in %s (%s): two goroutines can each hold one lock and wait for the other for ever", b, a, s1.fn, a, b, back.fn, c.pos(back.pos))
+			}
+			if !inverted || a < b {
+				r.Ob(!inverted, "lock-order|"+a+"|"+b, s1.pos, msg)
+			}
+		}
+	}
+	r.Note("lock order pairs (held -> taken): %s", strings.Join(order, "; "))
+	r.Ob(len(order) >= 1, "lock-order|pairs", token.NoPos, fmt.Sprintf("%d nested acquisitions of pipeline locks examined (%d sites)", len(order), nSites))
 }
